@@ -367,6 +367,22 @@ func init() {
 		}
 	}
 
+	// ---------------------------------------------------------- AddLiquidity / RemoveLiquidity
+	{
+		lp := func(kv ...interface{}) map[string]int64 {
+			return cfg(append([]interface{}{"pool10", 1, "lp10", 1, "concretePool", 1, "concreteLP", 1, "concretePrices", 1}, kv...)...)
+		}
+		la := append([]string{
+			"liquidity harness: pool (bancor coin 1, base) with concrete reserves and a concrete pool-token supply (the liquidity arithmetic multiplies by it); volumes, limits and balances symbolic; fee in the base coin or in coin 1 (then converted through reserve or through this very pool, whichever the uninterpreted formula makes cheaper)",
+			"amounts are read from the transaction's own tags and checked against the balance changes",
+		}, txAssumptions...)
+		lq := HSpec{Pkg: txPkg, Func: "VerifHarness_Liquidity_Deliver", Tier: "quick", Configs: []map[string]int64{lp("kind", 0, "gasCoin", 0), lp("kind", 0, "gasCoin", 1), lp("kind", 1, "gasCoin", 0), lp("kind", 1, "gasCoin", 1)},
+			Bounds: "one CheckTx+DeliverTx of AddLiquidity by A / RemoveLiquidity by the pool-token holder B"}
+		for _, id := range []string{"C13", "C22", "C15", "C01", "C02", "C03", "C05", "C06", "C07"} {
+			add(id, la, lq)
+		}
+	}
+
 	// ---------------------------------------------------------- coin registry transactions (C22)
 	{
 		rc := func(kv ...interface{}) map[string]int64 { return cfg(append([]interface{}{"concretePrices", 1}, kv...)...) }
